@@ -16,10 +16,11 @@ _WORLD_MODULES = {
     "elab": "worlds.elab",
     "ports": "worlds.ports",
     "csrdec": "worlds.csrdec",
+    "soc": "worlds.soc",
 }
 PROPERTY_WORLD = {
     "C04": "mux", "C05": "mux",
-    "C07": "wbdec", "C10": "wb2csr", "C15": "sram", "C13": "evmon", "C14": "csrevmon", "C11": "fields", "C12": "fields", "C16": "gpio", "C17": "builder", "C19": "elab", "C20": "ports", "C06": "csrdec",
+    "C07": "wbdec", "C10": "wb2csr", "C15": "sram", "C13": "evmon", "C14": "csrevmon", "C11": "fields", "C12": "fields", "C16": "gpio", "C17": "builder", "C19": "elab", "C20": "ports", "C06": "csrdec", "C01": "soc",
     "C08": "arbiter", "C09": "arbiter",
     "C02": "memmap", "C03": "memmap", "C18": "memmap",
 }
